@@ -2203,6 +2203,8 @@ def validate_fresh_table(ctx, tr):
         if not name.startswith(('numpy', 'scipy', 'copy')):
             continue
         for t in trials:
+            if isinstance(f, np.ufunc) and len(t) > f.nin:
+                continue          # a further positional argument of a ufunc is `out=`: returning it is the caller's explicit request, not aliasing
             args = copy.deepcopy(t)
             try:
                 with np.errstate(all='ignore'):
